@@ -212,9 +212,12 @@ def r_deriv_pen(A, ctx, scope, rule="R-DERIV-PEN"):
                 continue
             seen = set()
             g = el("g", "k0")
-            for wv in W_WITNESS:
+            has_w = any(nm.startswith("weights") for nm, _ in (A.prog.spec_of(cls) or []))
+            for wv, wtv in [(a_, b_) for a_ in W_WITNESS for b_ in ((None, 0.0) if has_w else (None,))]:
                 for gv in G_WITNESS:
                     env = {"w": wv, "g": gv}
+                    if wtv is not None:
+                        env.update({"weights": wtv})
                     try:
                         asg = ind_assignment([sd, dv], env)
                     except Unsupported as e:
@@ -234,7 +237,7 @@ def r_deriv_pen(A, ctx, scope, rule="R-DERIV-PEN"):
                         got = substitute(got, {W_ATOM: const(0)})
                     n += 1
                     label = f"{cls.fq}::{pm.tag}::region(w{'<' if sgn < 0 else '>' if sgn > 0 else '='}0" \
-                            f"{',|w|=' + str(abs(wv)) if sgn else ''})"
+                            f"{',|w|=' + str(abs(wv)) if sgn else ''}{',weight=0' if wtv == 0.0 else ''})"
                     if is_indicator:
                         # normal cone of a box [0, alpha] / half line [0, inf)
                         upper = any(a == ("sym", "alpha") for a in val.all_atoms())
@@ -262,6 +265,11 @@ def r_deriv_pen(A, ctx, scope, rule="R-DERIV-PEN"):
                             exp = fn("pos", -g - t)
                         else:
                             exp = fn("pos", fn("abs", g) - t)
+                        ok = got.equals(exp)
+                    if wtv == 0.0:
+                        zero_w = lambda t: substitute(t, {a: const(0) for a in t.all_atoms()      # noqa: E731
+                                                          if a[0] == "el" and str(a[1]).startswith("weights")})
+                        got, exp = zero_w(got), zero_w(exp)
                         ok = got.equals(exp)
                     ctx.ob(rule, label, ok,
                            what=f"{pm.tag}.subdiff_distance on this region is "
